@@ -4,6 +4,7 @@ import (
 	"fmt"
 	"net/http"
 	"strconv"
+	"strings"
 	"testing"
 	"time"
 
@@ -26,7 +27,7 @@ func c13Cases(thorough bool) []c13Case {
 	placements := []string{"stored", "request", "both", "neither", "error-reply-only"}
 	ns := []int64{0, 1, 10, 3600, 2147483648}
 	fails := []string{"err", "500", "502", "503", "504"}
-	excl := []string{"", "", "", "must-revalidate", "no-cache", "req-no-cache", "no-cache-fields"}
+	excl := []string{"", "", "", "must-revalidate", "no-cache", "req-no-cache", "no-cache-fields", "req-max-age0"}
 	for _, pl := range placements {
 		for _, n := range ns {
 			for _, ds := range []int64{-2, -1, 1, 2, 100000} {
@@ -103,7 +104,11 @@ func c13Run(r *run.Runner, c c13Case) {
 	phase := 0
 	w := sim.NewWorld(sim.WorldOpt{Handler: func(uc *sim.UpCall, req *http.Request) *sim.Reply {
 		if phase == 0 {
-			return Render(&RespSpec{Status: 200, CC: []string{storedCC}, ETag: `"s"`, BodySize: 10, Extra: map[string][]string{"X-Extra": {"1"}}}, uc.Enter, uc.Serial)
+			cc := []string{storedCC}
+			if parts := strings.SplitN(storedCC, ", ", 2); len(parts) == 2 && (c.StaleS+c.N)%2 == 1 {
+				cc = []string{parts[0], strings.ToUpper(parts[1][:1]) + parts[1][1:]} // two field lines, mixed case
+			}
+			return Render(&RespSpec{Status: 200, CC: cc, ETag: `"s"`, BodySize: 10, Extra: map[string][]string{"X-Extra": {"1"}}}, uc.Enter, uc.Serial)
 		}
 		// the failure takes a while to arrive for some cases: Age is the age at hand-over
 		delay := float64((c.StaleS + c.N) % 3 * 2)
@@ -136,6 +141,12 @@ func c13Run(r *run.Runner, c c13Case) {
 	if c.Exclude == "req-no-cache" {
 		reqCC = append(reqCC, "no-cache")
 	}
+	if c.Exclude == "req-max-age0" {
+		reqCC = append(reqCC, "max-age=0")
+	}
+	if len(reqCC) > 1 && (c.StaleS+c.N)%2 == 0 {
+		reqCC = []string{reqCC[0] + ",, " + reqCC[1]} // an empty list element
+	}
 	spec := sim.ReqSpec{URL: "http://a.example/c13"}
 	if len(reqCC) > 0 {
 		spec.Header = map[string][]string{"Cache-Control": {joinComma(reqCC)}}
@@ -158,6 +169,13 @@ func c13Run(r *run.Runner, c c13Case) {
 	failDelay := (c.StaleS + c.N) % 3 * 2 // seconds the failure takes to arrive; staleness may be taken at either end
 	mustServe := eligibleFailure && !excluded && window >= 0 && c.StaleS+failDelay <= window-1
 	mustNot := !eligibleFailure || excluded || window < 0 || c.StaleS >= window+1
+	if c.Exclude == "req-max-age0" {
+		// the request's max-age=0 makes the lifetime zero: staleness is the full
+		// age. Inside the window both outcomes are defensible (C02 vs C13) -
+		// outside it the stored response must not come back.
+		mustServe = false
+		mustNot = !eligibleFailure || window < 0 || L+c.StaleS >= window+1
+	}
 	sig := fmt.Sprintf("placement=%s,failure=%s,exclude=%s", c.Placement, failClass(c.Failure), c.Exclude)
 	obs := exSummaries(w)
 	calls := ex.Calls()
